@@ -50,6 +50,7 @@ def classify(rt, exc):
 class Session:
     def __init__(self, world, device=None, scratch=None):
         self.rt = rtmod.load()
+        rtmod.clear_function_caches()
         self.world = world
         self.device = device or world["device"]
         self.geos = [Geo(s) for s in world["labware"]]
